@@ -62,6 +62,17 @@ def c12_scenarios(r, tier):
                                           gen_line(1, "DW/x4", 4, 5), gen_line(1, "DW/x5", 3, 5)]))
     for f in ("commitpub:commit:0:2", "commitsig:commit:0:3"):
         out.append(("tampered-commit-reply " + f, [cluster_line(ids), gen_line(1, "DW/x6", 2, 3, f)]))
+    # equivocation: one participant hands another a contribution from a different polynomial with the same constant
+    # term (it verifies, and the composite key is unchanged): only the final threshold-signature check can notice;
+    # whatever is then reported as success must still be one consistent key
+    for (n_, t_, ids_) in [(2, 2, [1, 2]), (3, 2, [1, 2, 3]), (3, 3, [2, 9, 400])] + ([(4, 3, [1, 2, 3, 4]), (5, 3, [1, 2, 3, 4, 5])] if tier == "thorough" else []):
+        for a_ in ids_:
+            for b_ in ids_:
+                if a_ < b_:
+                    acct = "DW/eq%d_%d_%d_%d" % (n_, t_, a_, b_)
+                    out.append(("equivocation n=%d t=%d %d>%d" % (n_, t_, a_, b_),
+                                [cluster_line(ids_), gen_line(ids_[0], acct, t_, n_, "equiv:contribute:%d:%d" % (a_, b_)), "holds %s" % hx(acct),
+                                 "relations %s" % hx(acct), "recover %s" % hx(acct)]))
     # an earlier attempt committed on one participant only (the others were aborted); a retry under the same name
     # through another instance must not report success, and whatever is reported as success must be one consistent key
     for keep in ([3] if tier != "thorough" else [1, 2, 3]):
@@ -95,6 +106,14 @@ def c13_scenarios(tier):
             out.append(("n=%d t=%d %s" % (n, t, f), f, [cluster_line(ids), gen_line(ini, acct, t, n, f), "holds %s" % hx(acct),
                                                           # the cluster must still work afterwards
                                                           gen_line(ids[-1], acct + "ok", t, n), "holds %s" % hx(acct + "ok")]))
+        # two overlapping generations for one name (a second client / a retry while the first is between its execute
+        # phase and its commit requests): the second must fail without effect and the first complete — or, whatever
+        # happens, if every generation under the name ended with an error, no instance may hold an account
+        if n >= 3:
+            k += 1
+            acct = "DW/o%d" % k
+            out.append(("n=%d t=%d overlap" % (n, t), "overlap", [cluster_line(ids), "gens %d %s %s %d %d 360 %d %d %d" % (ids[0], hx("client1"), hx(acct), t, n, ids[1], max(2, (n - 1) // 2 + 1), n - 1),
+                                                                   "holds %s" % hx(acct)]))
         # duplicate delivery is harmless
         a, b = ids[0], ids[1]
         k += 1
@@ -171,6 +190,15 @@ def c16_scenarios(tier):
                     tt = len(idset) // 2 + 1
                     lines = [cluster_line(idset), hline("hprepare", owner, p, acct, tt, idset), "shareowner %d %d %s" % (owner, asker, hx(acct))]
                     out.append(("share owner=%d asker=%d" % (owner, asker), lines))
+                    # the same with a participant list that pairs the asker's endpoint with ANOTHER participant's id:
+                    # the share in the reply must still be the one for the authenticated caller's own id
+                    for other in idset:
+                        if other not in (owner, asker):
+                            k += 1
+                            acct = "DW/s%d" % k
+                            lines = [cluster_line(idset), "hprepares %d %s %s %d %s %d %d" % (owner, hx(p), hx(acct), tt, ",".join(str(x) for x in idset), asker, other),
+                                     "shareowner %d %d %s" % (owner, asker, hx(acct))]
+                            out.append(("share owner=%d asker=%d listed-as=%d" % (owner, asker, other), lines))
     return out
 
 
@@ -212,6 +240,15 @@ def c17_scenarios(r, tier):
                            [hline("hcommit", i, p, Y), hline("hprepare", i, p, Y, t, ids)]])
         T.append(("staggered-expiry-%d" % k, [hline("hprepare", i, p, X, t, ids), "sleep 1500", hline("hprepare", i, p, Y, t, ids), "sleep 2000", tl] + probe +
                   ["sleep 1600", hline("habort", i, p, Y), hline("habort", i, p, X), "holds %s" % hx(A), "holds %s" % hx(B)]))
+    # a commit that is refused although every participant has contributed (the key cannot be stored: the name exists
+    # already / the wallet cannot hold distributed accounts) leaves the generation active
+    N = "NW/keep"
+    T.append(("refused-commit-repeated-name", full_generation(ids, A, t) + [hline("hprepare", i, p, A, t, ids) for i in ids] + [hline("hexecute", i, p, A) for i in ids] +
+              [hline("hcommit", 1, p, A), hline("hprepare", 1, p, A, t, ids), hline("hcommit", 1, p, A), hline("habort", 1, p, A), hline("habort", 1, p, A),
+               hline("hcommit", 2, p, A), hline("habort", 2, p, A), hline("habort", 3, p, A), "holds %s" % hx(A)]))
+    T.append(("refused-commit-wallet", [hline("hprepare", i, p, N, t, ids) for i in ids] + [hline("hexecute", i, p, N) for i in ids] +
+              [hline("hcommit", 2, p, N), hline("hprepare", 2, p, N, t, ids), hline("habort", 2, p, N), hline("habort", 2, p, N),
+               hline("hcommit", 1, p, N), hline("hcommit", 1, p, N), hline("habort", 1, p, N), hline("habort", 3, p, N), "holds %s" % hx(N)]))
     # prepares for one name arriving at the same moment: exactly one may be accepted (a wide participant list makes
     # building the own contribution take long enough for the requests to overlap)
     for k in range(2 if tier != "thorough" else 10):
@@ -337,9 +374,22 @@ def c14_scenarios(r, tier):
                     events.append((which, i, d))
                     if r.chance(0.25):
                         events.append((which, i, d))      # repeated delivery
+            # stale requests in between (a lower slot / lower epochs than the pair's): refused or not, they must not
+            # disturb what protects the pair
+            stale = ("iprop", prop6(max(base - 3, 1), 2)) if kind == "proposal" else ("iatt", att9(max(base - 6, 0), max(base - 4, 1), 2))
+            for i in ids:
+                for _ in range(r.below(3)):
+                    events.append((0, i, stale))
             events = r.shuffle(events)
+            # and once in this very order on one instance: first duty, stale request, conflicting duty
+            if r.chance(0.7):
+                ix = r.choice(ids)
+                events += [(1, ix, d1), (0, ix, stale), (2, ix, d2)] if r.chance(0.5) else [(2, ix, d2), (0, ix, stale), (1, ix, d1)]
             i1, i2 = [], []
             for which, i, d in events:
+                if which == 0:
+                    lines.append("%s %d %s %s" % (d[0], i, hx(acct), d[1]))
+                    continue
                 (i1 if which == 1 else i2).append(len(lines))
                 # attestations reach an instance through either endpoint (single, or a batch of one)
                 opn = "iatts" if d[0] == "iatt" and r.chance(0.5) else d[0]
